@@ -243,6 +243,40 @@ InstanceOk7(sys, I) ==
   /\ I.prior \in 0..2 /\ I.iuf >= 0 /\ I.iif >= 0
 
 -----------------------------------------------------------------------------
+(* Scale.  The update law has two exact scaling properties:                                                            *)
+(*   (S1) without prior, scaling the image AND the additive term by c leaves the new image unchanged:                   *)
+(*        d = P(c lambda) + c a = c d,  G -> G/c,  lambda' = (c lambda)(G/c)/s_S;                                        *)
+(*   (S2) without additive term, scaling the data by c scales the new image by c (also with a prior: D does not        *)
+(*        depend on the data).                                                                                         *)
+(* For c = 2^k every floating-point operation of the implementation commutes with the scaling (no rounding is          *)
+(* affected), so the recorded images must agree BIT FOR BIT up to the exponent shift - provided the documented          *)
+(* thresholds of divide_and_truncate are not met at either scale (they are the only scale-dependent operations):       *)
+(*   "set quotient to min(numerator/denominator, max_quotient)", max_quotient = 10000: y_b 2^kd <= 2^13 d_b 2^ki;       *)
+(*   "we think num was really 0" for num <= 1e-6 * (maximum of the NUMERATOR viewgram): every count y_b >= 1 and        *)
+(*   max y < 10^6, at any data scale (the threshold scales with the data);                                             *)
+(* and nothing leaves the range of normal floats.                                                                      *)
+(* ki: exponent of the image (and additive term) scale, kd: exponent of the data scale.                                 *)
+QuotientBelowClamp(sys, I, lam, y, ki, kd) ==
+  \A b \in 1..NB(sys) :
+     (UsedBin(sys, I, b) /\ y[b] > 0) =>
+        LET d == RowDot(sys.rows[b], lam) + I.a[b] IN
+        /\ d > 0
+        /\ IF kd >= ki THEN y[b] * 2^(kd - ki) <= 8192 * d ELSE y[b] <= 8192 * d * 2^Min2(ki - kd, 10)
+CountsAboveThreshold(y) == \A b \in 1..Len(y) : y[b] = 0 \/ (y[b] >= 1 /\ y[b] < 1000000)
+ScaleDomain(sys, I, lam, y, ki, kd) ==
+  /\ ki \in -24..24 /\ kd \in -24..24
+  /\ QuotientBelowClamp(sys, I, lam, y, 0, 0) /\ QuotientBelowClamp(sys, I, lam, y, ki, kd)
+  /\ CountsAboveThreshold(y)
+(* which scalings the law is covariant under *)
+ScaleApplies(I, ki, kd, noAdditive) == (ki # 0 => I.prior = 0) /\ (kd # 0 => noAdditive) /\ I.iuf = 0 /\ I.iif = 0
+(* raw float bits <<high 16 bits, low 16 bits>> per voxel, multiplied by 2^k: zero stays zero, otherwise the exponent field   *)
+(* (bits 7..14 of the high limb) moves by k and must stay a normal exponent                                             *)
+IsZeroBits(h, lo) == h % 32768 = 0 /\ lo = 0
+ShiftOk(h, lo, k) == IsZeroBits(h, lo) \/ ((h % 32768) \div 128 + k) \in 1..254
+ShiftBits(bits, k) == << [v \in 1..Len(bits[1]) |-> IF IsZeroBits(bits[1][v], bits[2][v]) THEN bits[1][v] ELSE bits[1][v] + 128 * k], bits[2] >>
+ShiftAllOk(bits, k) == \A v \in 1..Len(bits[1]) : ShiftOk(bits[1][v], bits[2][v], k)
+
+-----------------------------------------------------------------------------
 (* Restart.  What a sub-iteration does to an image is decided by its subset, by whether the update is thresholded      *)
 (* (all sub-iterations but number 1) and by which filters fire.  All of it is a function of the ABSOLUTE sub-iteration  *)
 (* number, which is why a run resumed with "start at subiteration number" = k+1 (and the same "start at subset") from   *)
